@@ -38,6 +38,7 @@ pub fn ls_check(id: &str) -> Option<LsCheck> {
             profile: Profile {
                 name: "cost-bound",
                 cap: Cap::Tight,
+                interpose: 4,
                 negative_max: true,
                 ttl_pct: 20,
                 w: w(|w| {
@@ -59,6 +60,7 @@ pub fn ls_check(id: &str) -> Option<LsCheck> {
             id: "C02",
             profile: Profile {
                 name: "current-value",
+                interpose: 4,
                 w: w(|w| {
                     w.remove = 14;
                     w.clear = 3;
@@ -155,6 +157,7 @@ pub fn ls_check(id: &str) -> Option<LsCheck> {
             profile: Profile {
                 name: "store-policy-agreement",
                 cap: Cap::Tight,
+                interpose: 14,
                 modes: vec![Mode::Schedule],
                 ttl_pct: 30,
                 w: w(|w| {
@@ -167,7 +170,7 @@ pub fn ls_check(id: &str) -> Option<LsCheck> {
             quick: 6000,
             thorough: 150_000,
             rule: "schedule-mode lock-step cases (processor arms fire only where generated); non-trivial = a remove, update or clear() hit a key with work still buffered; distinct by case hash",
-            nontrivial: |f| f.removes_inflight > 0 || f.updates_inflight > 0 || f.clears_with_pending > 0,
+            nontrivial: |f| f.removes_inflight > 0 || f.updates_inflight > 0 || f.clears_with_pending > 0 || f.interposed_same_key > 0,
             assumptions: &["keys have distinct index hashes", "operations that returned Err void the case from that point (precondition of the property)"],
         },
         "C08" => LsCheck {
@@ -175,6 +178,7 @@ pub fn ls_check(id: &str) -> Option<LsCheck> {
             profile: Profile {
                 name: "one-callback",
                 cap: Cap::Tight,
+                interpose: 6,
                 ttl_pct: 30,
                 validators: vec![Validator::Always, Validator::Always, Validator::TagGe, Validator::Never, Validator::TagEven],
                 w: w(|w| {
@@ -362,7 +366,7 @@ pub fn run_case_caught(case: &Case, trace: bool) -> CaseResult {
         Ok(Err(e)) => CaseResult::Harness(format!("cache could not be built: {}", e)),
         Err(_) => {
             let p = panics_take().join(" | ");
-            if p.contains("HARNESS") {
+            if p.contains("HARNESS") || p.contains(" at src/") {
                 CaseResult::Harness(p)
             } else {
                 CaseResult::Panic(p)
@@ -413,6 +417,8 @@ pub fn failures_for(prop: &str, case: &Case, stats: Option<&Stats>, nontrivial: 
                     ("batch_dropped", f.batches_dropped > 0),
                     ("window_reset", f.window_resets > 0),
                     ("model_desynced", f.desynced),
+                    ("interposed", f.interposed > 0),
+                    ("interposed_same_key", f.interposed_same_key > 0),
                     ("op_returned_err", f.errs > 0),
                     ("max_cost_lowered_then_admit", f.max_cost_lowered_then_admit > 0),
                     ("over_budget_then_admit", f.over_budget_then_admit > 0),
@@ -448,7 +454,11 @@ pub fn run_ls_check(chk: &LsCheck, tier: &str, seed: u64, stats: &Stats) -> Chec
     let as_prop: &str = &as_prop;
     let res = run_prop(|| case_strategy(&chk.profile), n, seed, 16, stats, |case| match failures_for(as_prop, case, Some(stats), chk.nontrivial) {
         Err(h) => {
-            *harness_err.lock() = Some(h);
+            let mut g = harness_err.lock();
+            if g.is_none() {
+                let _ = write_replay("inconclusive", "lockstep", case, &h);
+                *g = Some(h);
+            }
             Ok(())
         }
         Ok(f) if f.is_empty() => Ok(()),
